@@ -188,6 +188,135 @@ SITES = {
   ("time_limits_atomic", "internal/search/search.go", r"func \(s \*Search\) loadTimeLimit\(",
    [r"atomic\.LoadInt64"], []),
  ],
+ # ---------------- C12: what the engine remembers between two searches (SessionMem.v: the frame theorem
+ # C12_newgame_equals_fresh).  COUNT(P, n) below is the whole-file look-ahead
+ #   (?=(?:(?:(?!P).)*P){n}(?:(?!P).)*\Z)   "P occurs exactly n times in the file"
+ # (signatures are matched against the source WITH comments: patterns that could also occur in a comment are
+ #  anchored at the start of a line with (?m)^[ \t]*).
+ "C12": [
+  # (a) the exact field list of the Search struct, field by field: SessionMem.v classifies every one of them as
+  #     plumbing / per-search / persistent; a new, removed, renamed or retyped field needs a new analysis
+  ("search_struct_fields", "internal/search/search.go", r"type Search struct \{",
+   [r"\A\{\s*" + r"\s+".join(n + r"\s+" + t for n, t in [
+       ("log", r"\*logging\.Logger"), ("slog", r"\*logging\.Logger"),
+       ("uciHandlerPtr", r"uciInterface\.UciDriver"), ("initSemaphore", r"\*semaphore\.Weighted"), ("isRunning", r"\*semaphore\.Weighted"),
+       ("book", r"\*openingbook\.Book"), ("tt", r"\*transpositiontable\.TtTable"), ("eval", r"\*evaluator\.Evaluator"),
+       ("history", r"\*history\.History"), ("lastSearchResult", r"\*Result"),
+       ("stopFlag", r"\*util\.Bool"), ("startTime", r"time\.Time"), ("hasResult", r"bool"),
+       ("currentPosition", r"\*position\.Position"), ("searchLimits", r"\*Limits"),
+       ("timeLimit", r"time\.Duration"), ("extraTime", r"time\.Duration"), ("nodesVisited", r"uint64"),
+       ("mg", r"\[\]\*movegen\.Movegen"), ("pv", r"\[\]\*moveslice\.MoveSlice"), ("rootMoves", r"\*moveslice\.MoveSlice"),
+       ("hadBookMove", r"bool"), ("lastUciUpdateTime", r"time\.Time"), ("statistics", r"Statistics")]) + r"\s*\}\Z"], []),
+  # SessionMem.boot: the persistent fields of a new Search
+  ("new_search_initial_memory", "internal/search/search.go", r"func NewSearch\(\) \*Search",
+   [r"s := &Search\{", r"book:\s*nil,\s*tt:\s*nil,\s*eval:\s*evaluator\.NewEvaluator\(\),\s*history:\s*history\.NewHistory\(\),\s*lastSearchResult:\s*nil,",
+    r"hadBookMove:\s*false,", r"\}\s*return s\s*\}\Z"], []),
+  ("history_is_two_zeroed_tables", "internal/history/history.go", r"type History struct \{",
+   [r"\A\{\s*HistoryCount\s+\[2\]\[64\]\[64\]int64\s+CounterMoves\s+\[64\]\[64\]Move\s*\}\Z"], []),
+  ("new_history_is_zero", "internal/history/history.go", r"func NewHistory\(\) \*History",
+   [r"\A\{\s*return &History\{\}\s*\}\Z"], []),
+  # (b) SessionMem.newgame_step: the whole body of NewGame
+  ("newgame_clears_table_and_history", "internal/search/search.go", r"func \(s \*Search\) NewGame\(\)",
+   [r"\A\{\s*s\.StopSearch\(\)\s*if s\.tt != nil\s*\{\s*s\.tt\.Clear\(\)\s*\}\s*s\.history = history\.NewHistory\(\)\s*\}\Z"], []),
+  # (c) SessionMem.run_init: the per-search fields are overwritten, in this order, before anything reads them; the book is
+  #     consulted only under time control; existing entries are aged; run() replaces none of the persistent objects
+  ("run_resets_per_search_fields", "internal/search/search.go", r"func \(s \*Search\) run\(",
+   [r"s\.startTime = time\.Now\(\)",
+    r"s\.hasResult = false\s*s\.setTimeLimit\(0\)\s*s\.setExtraTime\(0\)\s*s\.nodesVisited = 0\s*s\.statistics = Statistics\{\}\s*s\.lastUciUpdateTime = s\.startTime\s*s\.initialize\(\)\s*s\.setupSearchLimits\(position, sl\)",
+    r"bookMove := MoveNone\s*if s\.book != nil && config\.Settings\.Search\.UseBook && sl\.TimeControl\s*\{",
+    r"if s\.tt != nil\s*\{[^{}]*s\.tt\.AgeEntries\(\)\s*\}\s*else\s*\{",
+    r"s\.mg = make\(", r"s\.initSemaphore\.Release\(1\)",
+    r"if bookMove == MoveNone\s*\{\s*searchResult = s\.iterativeDeepening\(position\)\s*\}\s*else\s*\{",
+    r"s\.lastSearchResult = searchResult\s*s\.hasResult = true"],
+   [r"s\.(?:tt|history|eval|book)\s*=[^=]", r"s\.hadBookMove = false", r"s\.book\.GetEntry\(.*s\.book\.GetEntry\(", r"\.Clear\(\)", r"\.Resize\(",
+    r"s\.statistics = .*s\.statistics = ", r"s\.nodesVisited = .*s\.nodesVisited = "]),
+  # (d) fresh generators and PV lists for every ply of every search; the generators see the history tables by pointer
+  ("run_builds_fresh_generators_and_pv", "internal/search/search.go", r"func \(s \*Search\) run\(",
+   [r"s\.tt\.AgeEntries\(\)",
+    r"s\.mg = make\(\[\]\*movegen\.Movegen, 0, MaxDepth\+1\)\s*s\.pv = make\(\[\]\*moveslice\.MoveSlice, 0, MaxDepth\+1\)\s*"
+    r"for i := 0; i <= MaxDepth; i\+\+\s*\{\s*newMoveGen := movegen\.NewMoveGen\(\)\s*"
+    r"if config\.Settings\.Search\.UseHistoryCounter \|\| config\.Settings\.Search\.UseCounterMoves\s*\{\s*newMoveGen\.SetHistoryData\(s\.history\)\s*\}\s*"
+    r"s\.mg = append\(s\.mg, newMoveGen\)\s*s\.pv = append\(s\.pv, moveslice\.NewMoveSlice\(MaxDepth\+1\)\)\s*\}",
+    r"s\.initSemaphore\.Release\(1\)", r"s\.iterativeDeepening\(position\)"],
+   [r"s\.mg = make\(.*s\.mg = make\(", r"s\.pv = make\(.*s\.pv = make\("]),
+  ("root_moves_generated_before_use", "internal/search/search.go", r"func \(s \*Search\) iterativeDeepening\(",
+   [r"s\.rootMoves = s\.mg\[0\]\.GenerateLegalMoves\(position, movegen\.GenAll\)", r"s\.rootMoves\.Len\(\)"],
+   [r"s\.rootMoves\b(?!\s*=\s*s\.mg).*s\.rootMoves = s\.mg\[0\]"]),
+  # (e) uci.go: ucinewgame = start position + NewGame; the handler owns one Search and one position; go passes both by value
+  ("ucinewgame_dispatch", "internal/uci/uci.go", r"func \(u \*UciHandler\) handleReceivedCommand\(",
+   [r'case "setoption":\s*u\.setOptionCommand\(tokens\)\s*case "isready":\s*u\.isReadyCommand\(\)\s*case "ucinewgame":\s*u\.uciNewGameCommand\(\)\s*case "position":\s*u\.positionCommand\(tokens\)\s*case "go":\s*u\.goCommand\(tokens\)'],
+   [r"uciNewGameCommand\(\).*uciNewGameCommand\(\)"]),
+  ("ucinewgame_resets_position_and_search", "internal/uci/uci.go", r"func \(u \*UciHandler\) uciNewGameCommand\(\)",
+   [r"\A\{\s*u\.myPosition = position\.NewPosition\(\)\s*u\.mySearch\.NewGame\(\)\s*\}\Z"], []),
+  ("handler_owns_one_search_and_position", "internal/uci/uci.go", r"func NewUciHandler\(\) \*UciHandler",
+   [r"mySearch:\s*search\.NewSearch\(\),\s*myPosition:\s*position\.NewPosition\(\),"], [r"\.NewGame\(", r"StartSearch\("]),
+  ("go_searches_the_handlers_position", "internal/uci/uci.go", r"func \(u \*UciHandler\) goCommand\(",
+   [r"searchLimits, err := u\.readSearchLimits\(tokens\)\s*if err\s*\{\s*return\s*\}\s*u\.mySearch\.StartSearch\(\*u\.myPosition, \*searchLimits\)\s*\}\Z"], []),
+  # SessionMem.initialize / resize_cache / clear_hash / setoption_step: where the table is created, dropped, cleared
+  ("initialize_creates_book_and_table_once", "internal/search/search.go", r"func \(s \*Search\) initialize\(\)",
+   [r"if config\.Settings\.Search\.UseBook\s*\{\s*if s\.book == nil\s*\{\s*s\.book = openingbook\.NewBook\(\)",
+    r"\}\s*else\s*\{",
+    r"if config\.Settings\.Search\.UseTT\s*\{\s*if s\.tt == nil\s*\{\s*sizeInMByte := config\.Settings\.Search\.TTSize\s*if sizeInMByte == 0\s*\{\s*sizeInMByte = 64\s*\}\s*s\.tt = transpositiontable\.NewTtTable\(sizeInMByte\)\s*\}\s*\}\s*else\s*\{"],
+   [r"s\.tt = .*s\.tt = ", r"s\.(?:history|eval)\s*=[^=]", r"\.Clear\(\)"]),
+  ("isready_initializes", "internal/search/search.go", r"func \(s \*Search\) IsReady\(\)",
+   [r"\A\{\s*s\.initialize\(\)\s*if s\.uciHandlerPtr != nil\s*\{\s*s\.uciHandlerPtr\.SendReadyOk\(\)"], [r"s\.\w+\s*=[^=]"]),
+  ("resize_drops_table_unless_searching", "internal/search/search.go", r"func \(s \*Search\) ResizeCache\(\)",
+   [r"\A\{\s*if s\.IsSearching\(\)\s*\{[^{}]*return\s*\}\s*s\.tt = nil\s*s\.initialize\(\)"], [r"s\.(?:history|eval|book)\s*=[^=]"]),
+  ("clearhash_clears_unless_searching", "internal/search/search.go", r"func \(s \*Search\) ClearHash\(\)",
+   [r"\A\{\s*if s\.IsSearching\(\)\s*\{[^{}]*return\s*\}\s*if s\.tt != nil\s*\{\s*s\.tt\.Clear\(\)"], [r"s\.\w+\s*=[^=]"]),
+  # Settings.Search.TTSize is written by the Hash handler only, which resizes at once
+  ("hash_option_writes_size_and_resizes", "internal/uci/ucioption.go",
+   r"(?s)\A(?=(?:(?:(?!Settings\.Search\.TTSize\s*=[^=]).)*Settings\.Search\.TTSize\s*=[^=]){1}(?:(?!Settings\.Search\.TTSize\s*=[^=]).)*\Z).*?func cacheSize\(u \*UciHandler, o \*uciOption\)",
+   [r"\A\{\s*v, _ := strconv\.Atoi\(o\.CurrentValue\)\s*if v < 0\s*\{\s*v = 0\s*\}\s*Settings\.Search\.TTSize = v\s*u\.mySearch\.ResizeCache\(\)\s*\}\Z"], []),
+  ("clear_hash_button", "internal/uci/ucioption.go", r"func clearCache\(u \*UciHandler, o \*uciOption\)",
+   [r"\A\{\s*u\.mySearch\.ClearHash\(\)"], [r"Settings\."]),
+  # the persistent fields are assigned only where SessionMem.v says (whole file search.go): s.tt twice (ResizeCache,
+  # initialize), s.history once (NewGame), s.book three times (initialize), s.eval never, hadBookMove: one read and two
+  # writes, lastSearchResult: written at the end of run(), read by its getter only
+  ("memory_fields_assigned_only_where_modelled", "internal/search/search.go",
+   r"(?sm)\A"
+   r"(?=(?:(?:(?!^[ \t]*s\.tt = ).)*^[ \t]*s\.tt = ){2}(?:(?!^[ \t]*s\.tt = ).)*\Z)"
+   r"(?=(?:(?:(?!^[ \t]*s\.history = ).)*^[ \t]*s\.history = ){1}(?:(?!^[ \t]*s\.history = ).)*\Z)"
+   r"(?=(?:(?:(?!^[ \t]*s\.book = ).)*^[ \t]*s\.book = ){3}(?:(?!^[ \t]*s\.book = ).)*\Z)"
+   r"(?!.*^[ \t]*s\.eval = )"
+   r"(?=(?:(?:(?!s\.hadBookMove\b).)*s\.hadBookMove\b){3}(?:(?!s\.hadBookMove\b).)*\Z)"
+   r"(?=(?:(?:(?!s\.lastSearchResult\b).)*s\.lastSearchResult\b){2}(?:(?!s\.lastSearchResult\b).)*\Z)"
+   r".*?func \(s \*Search\) LastSearchResult\(\) Result",
+   [r"\A\{\s*return \*s\.lastSearchResult\s*\}\Z"], []),
+  # SessionMem.extra_granted: the only read of hadBookMove needs time control
+  ("had_book_move_read_only_under_time_control", "internal/search/search.go", r"func \(s \*Search\) iterativeDeepening\(",
+   [r"if s\.hadBookMove && s\.searchLimits\.TimeControl && s\.searchLimits\.MoveTime == 0\s*\{", r"s\.hadBookMove = false\s*\}", r"for iterationDepth := 0;"],
+   [r"s\.hadBookMove\b.*s\.hadBookMove\b.*s\.hadBookMove\b", r"s\.book\b", r"s\.lastSearchResult\b"]),
+  # SessionMem.tt_view / hashfull_view / search_fn: the tree search reaches the table only through Probe / Put / GetEntry and only
+  # under Settings.Search.UseTT; it assigns none of the persistent fields and does not know book, hadBookMove, lastSearchResult
+  ("tt_access_guarded", "internal/search/alphabeta.go",
+   r"(?s)\A(?!.*s\.(?:book|hadBookMove|lastSearchResult)\b)(?!.*s\.(?:tt|history|eval)\s*=[^=])(?!.*s\.tt\.(?!Probe\(|Put\(|GetEntry\())"
+   r"(?=(?:(?:(?!s\.tt\b).)*s\.tt\b){6}(?:(?!s\.tt\b).)*\Z)"
+   r"(?=(?:(?:(?!s\.storeTT\().)*s\.storeTT\(){4}(?:(?!s\.storeTT\().)*\Z)"
+   r"(?=(?:(?:(?!s\.getPVLine\().)*s\.getPVLine\(){1}(?:(?!s\.getPVLine\().)*\Z)"
+   r".*?func \(s \*Search\) storeTT\(",
+   [r"\A\{\s*s\.tt\.Put\(p\.ZobristKey\(\), move, int8\(depth\), valueToTT\(value, ply\), valueType, false\)\s*\}\Z"], []),
+  ("search_tt_calls_under_use_tt", "internal/search/alphabeta.go", r"func \(s \*Search\) search\(",
+   [r"if Settings\.Search\.UseTT\s*\{\s*ttEntry = s\.tt\.Probe\(p\.ZobristKey\(\)\)\s*if ttEntry != nil\s*\{", r"if cut && Settings\.Search\.UseTTValue\s*\{\s*s\.getPVLine\(p, s\.pv\[ply\], depth\)",
+    r"\}\s*else\s*\{\s*s\.statistics\.TTMiss\+\+\s*\}\s*\}",
+    r"if Settings\.Search\.UseTT\s*\{\s*s\.storeTT\(p, depth, ply, ttMove, nValue, BETA\)\s*\}",
+    r"if Settings\.Search\.UseTT\s*\{\s*s\.storeTT\(p, depth, ply, bestNodeMove, bestNodeValue, ttType\)\s*\}\s*return bestNodeValue"],
+   [r"s\.tt\b.*s\.tt\b", r"s\.storeTT\(.*s\.storeTT\(.*s\.storeTT\("]),
+  ("qsearch_tt_calls_under_use_tt", "internal/search/alphabeta.go", r"func \(s \*Search\) qsearch\(",
+   [r"if Settings\.Search\.UseTT && Settings\.Search\.UseQSTT\s*\{\s*ttEntry = s\.tt\.Probe\(p\.ZobristKey\(\)\)",
+    r"if Settings\.Search\.UseTT && Settings\.Search\.UseQSTT\s*\{\s*s\.storeTT\(p, 1, ply, bestNodeMove, bestNodeValue, ttType\)\s*\}\s*return bestNodeValue"],
+   [r"s\.tt\b.*s\.tt\b", r"s\.storeTT\(.*s\.storeTT\(", r"getPVLine"]),
+  ("evaluate_tt_calls_under_use_tt", "internal/search/alphabeta.go", r"func \(s \*Search\) evaluate\(",
+   [r"if Settings\.Search\.UseTT && Settings\.Search\.UseEvalTT\s*\{\s*ttEntry := s\.tt\.Probe\(position\.ZobristKey\(\)\)",
+    r"value = s\.eval\.Evaluate\(position\)",
+    r"if Settings\.Search\.UseTT && Settings\.Search\.UseEvalTT\s*\{\s*s\.storeTT\(position, 0, ply, MoveNone, value, EXACT\)\s*\}\s*return value"],
+   [r"s\.tt\b.*s\.tt\b", r"s\.storeTT\(.*s\.storeTT\("]),
+  ("ponder_probe_under_use_tt", "internal/search/search.go", r"func \(s \*Search\) iterativeDeepening\(",
+   [r"if config\.Settings\.Search\.UseTT\s*\{\s*position\.DoMove\(result\.BestMove\)\s*ttEntry := s\.tt\.Probe\(position\.ZobristKey\(\)\)"],
+   [r"s\.tt\b.*s\.tt\b"]),
+  ("hashfull_read_when_table_exists", "internal/search/search.go", r"func \(s \*Search\) sendSearchUpdateToUci\(\)",
+   [r"hashfull := 0\s*if s\.tt != nil\s*\{\s*hashfull = s\.tt\.Hashfull\(\)\s*\}"], [r"s\.tt\.(?!Hashfull\(\))"]),
+ ],
  # ---------------- C20: cache locking
  "C20": [
   ("load_unlocks_before_error_return", "internal/openingbook/openingbook.go", r"func \(b \*Book\) loadFromCache\(",
